@@ -580,8 +580,24 @@ def capacity_decisions(unit, cap="maxgeom", status="status"):
                 continue
             for x in cir.walk(cond):
                 in_cond.add(id(x))
+            def inert(arm):
+                # the arm only reports: no jump, no store, no call other than the warning / message primitives
+                if arm is None:
+                    return True
+                for x in cir.walk(arm):
+                    k2 = x.get("k")
+                    if k2 in ("ReturnStmt", "BreakStmt", "ContinueStmt", "GotoStmt", "CompoundAssignOperator"):
+                        return False
+                    if k2 == "BinaryOperator" and x.get("op") == "=":
+                        return False
+                    if k2 == "UnaryOperator" and x.get("op") in ("++", "--"):
+                        return False
+                    if cir.is_call(x) and cir.callee(x) not in WARN_CALLS and cir.callee(x) not in ("mju_message", "printf", "snprintf"):
+                        return False
+                return True
             out.append({"function": fname, "file": fn.get("file") or unit.tu, "line": n.get("line") or fn.get("line"),
-                        "kind": "cond", "expr": cir.text(cond)[:120], "reported": any(reports(a) for a in arms)})
+                        "kind": "cond", "expr": cir.text(cond)[:120], "reported": any(reports(a) for a in arms),
+                        "inert": all(inert(a) for a in arms) and k == "IfStmt"})
         # other uses: a read that is neither inside a recorded condition nor the initialiser of a carrying local
         init_nodes = set()
         for n in cir.walk(fn):
@@ -644,7 +660,8 @@ def tu_facts(unit):
                 geom_callees.add(cir.callee(c))
     defs = sorted(n for n, fn in unit.funcs.items() if (fn.get("file") or unit.tu) == unit.tu)
     return {"access": acc, "zeroes": zeroes_scene(unit), "order": order, "geom_callees": sorted(geom_callees),
-            "defs": defs, "capacity": capacity_decisions(unit), "index": _option_index_sites(unit)}
+            "defs": defs, "capacity": capacity_decisions(unit), "index": _option_index_sites(unit),
+            "statusreads": capacity_decisions(unit, cap="status")}
 
 
 def cap_alloc(unit, name, cap="maxgeom", arr="geoms", elem="mjvGeom"):
